@@ -1226,6 +1226,7 @@ determine_type() const {
     case '%':
     case '|':
     case '&':
+    case '^':
     case LSHIFT:
     case RSHIFT:
       return int_type;
